@@ -12,15 +12,15 @@ Local Open Scope string_scope. Local Open Scope list_scope. Local Open Scope Z_s
 
 (* read_reporter_results(): counters, rest of the pipe and status are read_results', for any
    pipe content; the function performs no undefined operation (the run is Fine, never Stuck) as long
-   as no counter leaves the range of int *)
+   as no counter leaves the range of int; whatever lies behind the reporter object in the heap (tl) is untouched *)
 Theorem Code_read_reporter_results_is_read_results :
-  forall pipe k extra tr n,
+  forall tl pipe k extra tr n,
     (List.length pipe < n)%nat -> bounded k (List.length pipe) ->
     exists tr1,
       Forall is_recv tr1 /\
-      run_fun prog_reporter n "read_reporter_results" [VPtr 0 0] (rw k extra pipe tr) =
+      run_fun prog_reporter n "read_reporter_results" [VPtr 0 0] (rwt tl k extra pipe tr) =
       (let '(rest, k', st) := read_results pipe k false in
-       Fine (VInt (status_code st), rw k' extra rest (tr1 ++ tr))).
+       Fine (VInt (status_code st), rwt tl k' extra rest (tr1 ++ tr))).
 Proof. exact read_reporter_results_refines. Qed.
 Print Assumptions Code_read_reporter_results_is_read_results.
 
@@ -28,20 +28,20 @@ Print Assumptions Code_read_reporter_results_is_read_results.
    is Skipped; it is shown incomplete and counted as one more exception iff no completion notice
    arrived; the breadcrumb is popped last, once *)
 Theorem Code_reporter_finish_test_is_base_finish_test :
-  forall pipe k extra tr n file line message,
+  forall tl pipe k extra tr n file line message,
     (List.length pipe + 1 < n)%nat -> bounded k (List.length pipe + 1) ->
     exists tr1,
       Forall is_recv tr1 /\
-      run_fun prog_reporter n "reporter_finish_test" [VPtr 0 0; file; line; message] (rw k (rep_extra extra) pipe tr) =
+      run_fun prog_reporter n "reporter_finish_test" [VPtr 0 0; file; line; message] (rwt tl k (rep_extra extra) pipe tr) =
       (let '(rest, k1, st) := read_results pipe k false in
        match st with
        | Received =>
-           Fine (VInt 0, rw k1 (rep_extra extra) rest ([("pop_breadcrumb", [VInt 77])] ++ tr1 ++ tr))
+           Fine (VInt 0, rwt tl k1 (rep_extra extra) rest ([("pop_breadcrumb", [VInt 77])] ++ tr1 ++ tr))
        | Skipped =>
-           Fine (VInt 0, rw k1 (rep_extra extra) rest
+           Fine (VInt 0, rwt tl k1 (rep_extra extra) rest
                           ([("pop_breadcrumb", [VInt 77]); ("show_skip", [VPtr 0 0; file; line])] ++ tr1 ++ tr))
        | NotReceived =>
-           Fine (VInt 0, rw (cadd k1 (mkcnt 0 0 0 1)) (rep_extra extra) rest
+           Fine (VInt 0, rwt tl (cadd k1 (mkcnt 0 0 0 1)) (rep_extra extra) rest
                           ([("pop_breadcrumb", [VInt 77]);
                             ("show_incomplete", [VPtr 0 0; file; line; message; VInt 0]);
                             ("memset", [VInt 0; VInt 0; VInt 24])] ++ tr1 ++ tr))
@@ -50,13 +50,13 @@ Proof. exact reporter_finish_test_refines. Qed.
 Print Assumptions Code_reporter_finish_test_is_base_finish_test.
 
 Theorem Code_reporter_finish_suite_is_base_finish_suite :
-  forall pipe k extra tr n file line,
+  forall tl pipe k extra tr n file line,
     (List.length pipe + 1 < n)%nat -> bounded k (List.length pipe) ->
     exists tr1,
       Forall is_recv tr1 /\
-      run_fun prog_reporter n "reporter_finish_suite" [VPtr 0 0; file; line] (rw k (rep_extra extra) pipe tr) =
+      run_fun prog_reporter n "reporter_finish_suite" [VPtr 0 0; file; line] (rwt tl k (rep_extra extra) pipe tr) =
       (let '(rest, k1, _) := read_results pipe k false in
-       Fine (VInt 0, rw k1 (rep_extra extra) rest ([("pop_breadcrumb", [VInt 77])] ++ tr1 ++ tr))).
+       Fine (VInt 0, rwt tl k1 (rep_extra extra) rest ([("pop_breadcrumb", [VInt 77])] ++ tr1 ++ tr))).
 Proof. exact reporter_finish_suite_refines. Qed.
 Print Assumptions Code_reporter_finish_suite_is_base_finish_suite.
 
